@@ -48,7 +48,7 @@ PROPS = {
     "C10": {
         "modules": ["TurnModel.Props.C10"],
         "harnesses": ["H1"],
-        "view": ["consume", "frames"],
+        "view": ["consume", "frames", "framesb"],
         "alarms": ["framer-roundtrip", "consume-no-progress", "framer-spins"],
         "rule": "H1 drives consumeSingleTURNFrame on all 2^16 length fields x {ChannelData, STUN, garbage} (short buffers) and "
                 "exact/long/one-short buffers for stratified lengths, and the real STUNConn over a scripted net.Conn on frame "
@@ -60,11 +60,14 @@ PROPS = {
     },
     "C09": {
         "modules": ["TurnModel.Props.C09"],
-        "harnesses": ["H1"],
-        "view": ["consume", "frames", "cddec", "ischan"],
-        "alarms": ["consume-no-progress", "framer-spins", "harness-died"],
+        "harnesses": ["H1", "H5"],
+        "view": ["consume", "frames", "framesb", "cddec", "ischan", "cin", "cnet"],
+        "alarms": ["consume-no-progress", "framer-spins", "harness-died", "inbound-blocks", "h5-setup"],
         "rule": "hostile streams through the real framer and codecs (all 2^16 declared lengths, uint16-overflow lengths 0xFFEC-0xFFFF, "
-                "random garbage of every length 0-40); a crashed or hung harness is reported with the last flushed operation",
+                "random garbage of every length 0-40; every stream also read with caller buffers of 1-1600 bytes, smaller than some frames); "
+                "client side (H5): undecodable STUN, requests, foreign responses, garbage from the server and from elsewhere, ChannelData on unknown channels, "
+                "a burst of 1100 datagrams with no reader and 14 ConnectionAttempt indications with nobody accepting - every HandleInbound call must return "
+                "(inbound-blocks otherwise); a crashed or hung harness is reported with the last flushed operation",
         "trusted_base": H1_TB,
         "assumptions": ["PARTIAL: panics inside pion/stun's decoder and the Go runtime cannot be exhibited by the Lean model; "
                         "the hostile streams are the only evidence for those"],
